@@ -1,6 +1,7 @@
 package main
 
 import (
+	"strings"
 	"verif/internal/effects"
 	"verif/internal/kinds"
 	"verif/internal/load"
@@ -49,6 +50,20 @@ var scanRules = map[string]scanRule{
 	"trivia-siblings":  func(a *scandfa.Analysis) []*report.RuleResult { return []*report.RuleResult{a.TriviaSiblings()} },
 	"newline-symmetry": func(a *scandfa.Analysis) []*report.RuleResult { return []*report.RuleResult{a.NewlineSymmetry()} },
 	"idx-guard":        func(a *scandfa.Analysis) []*report.RuleResult { return []*report.RuleResult{a.IdxGuard()} },
+	// stack-live: the part of idx-guard about reads of the scanner's call stack (a view, so that C07 can claim it alone)
+	"stack-live": func(a *scandfa.Analysis) []*report.RuleResult {
+		all := a.IdxGuard()
+		r := report.NewResult("stack-live")
+		for _, ob := range all.Obls {
+			if strings.HasPrefix(ob.Key, "idx-guard/stack-live/") || strings.HasPrefix(ob.Key, "idx-guard/bad:stack-live/") || strings.HasPrefix(ob.Key, "idx-guard/stack-invariant/") {
+				ob.Rule = "stack-live"
+				ob.Key = "stack-live/" + strings.TrimPrefix(strings.TrimPrefix(ob.Key, "idx-guard/"), "stack-live/")
+				r.Obls = append(r.Obls, ob)
+				r.Count("obligations", 1)
+			}
+		}
+		return []*report.RuleResult{r}
+	},
 	"no-rescan":        func(a *scandfa.Analysis) []*report.RuleResult { return []*report.RuleResult{a.NoRescan()} },
 	"eof-final":        func(a *scandfa.Analysis) []*report.RuleResult { return []*report.RuleResult{a.EofFinal()} },
 	"num-classify":     func(a *scandfa.Analysis) []*report.RuleResult { return []*report.RuleResult{a.NumClassify()} },
